@@ -531,6 +531,65 @@ impl Family for Like3 {
     }
 }
 
+/// STAGE9: middlegame-stage material in which trades switch the evaluation's game stage, with
+/// asymmetric kings — white K on one of the 16 central squares, Q, one minor piece and a pawn;
+/// black K in a corner region, q, b, n and a pawn (nine men, both sides to move). Huge index
+/// space: callers take a co-prime sub-lattice.
+pub struct Stage9;
+impl Family for Stage9 {
+    fn name(&self) -> String {
+        "STAGE9".into()
+    }
+    fn len(&self) -> u64 {
+        16 * 12 * 64 * 2 * 64 * 48 * 64 * 64 * 64 * 48 * 2
+    }
+    fn decode(&self, mut i: u64) -> Option<Pos> {
+        let mut take = |n: u64| -> u64 {
+            let v = i % n;
+            i /= n;
+            v
+        };
+        let wk = take(16);
+        let bk = take(12);
+        let wq = take(64) as u8;
+        let wkind = [BISHOP, KNIGHT][take(2) as usize];
+        let wm = take(64) as u8;
+        let wp = take(48) as u8 + 8;
+        let bq = take(64) as u8;
+        let bb = take(64) as u8;
+        let bn = take(64) as u8;
+        let bp = take(48) as u8 + 8;
+        let stm = take(2) as u8;
+        let wk_sq = sq_at(2 + (wk % 4) as i8, 2 + (wk / 4) as i8)?;
+        const CORNER: [u8; 12] = [0, 1, 8, 6, 7, 15, 48, 56, 57, 55, 62, 63];
+        let bk_sq = CORNER[bk as usize];
+        let mut p = Pos::empty();
+        for (sq, piece) in [
+            (wk_sq, pc(WHITE, KING)),
+            (bk_sq, pc(BLACK, KING)),
+            (wq, pc(WHITE, QUEEN)),
+            (wm, pc(WHITE, wkind)),
+            (wp, pc(WHITE, PAWN)),
+            (bq, pc(BLACK, QUEEN)),
+            (bb, pc(BLACK, BISHOP)),
+            (bn, pc(BLACK, KNIGHT)),
+            (bp, pc(BLACK, PAWN)),
+        ] {
+            if p.board[sq as usize] != EMPTY {
+                return None;
+            }
+            p.board[sq as usize] = piece;
+        }
+        p.stm = stm;
+        p.full = 30;
+        if p.is_legal_position() {
+            Some(p)
+        } else {
+            None
+        }
+    }
+}
+
 /// wraps a family and yields the colour-flipped twin of every member
 pub struct Flipped<'a>(pub &'a dyn Family);
 impl<'a> Family for Flipped<'a> {
